@@ -12,7 +12,13 @@ elab "#audit_ns " ns:ident : command => do
   let pre := ns.getId
   let mut names : Array Name := #[]
   for (n, ci) in env.constants.toList do
-    if pre.isPrefixOf n && !n.isInternal then
+    -- skip compiler-generated theorems (equation lemmas `f.eq_1`, `f.eq_def`, `match_…`, `proof_…`, `…._simp_…`,
+    -- `sizeOf_spec`, `injEq`, …): only theorems written in the Props files count as obligations
+    let last := match n with | .str _ s => s | _ => ""
+    let auto := last.startsWith "eq_" || last.startsWith "match_" || last.startsWith "proof_" ||
+      last.startsWith "_" || last == "sizeOf_spec" || last == "injEq" || last == "inj" || last == "noConfusion" ||
+      last.startsWith "congr_simp" || last.startsWith "fun_cases" || last.startsWith "induct" || last.startsWith "mutual_induct"
+    if pre.isPrefixOf n && !n.isInternal && !auto then
       match ci with
       | .thmInfo _ => names := names.push n
       | _ => pure ()
